@@ -398,9 +398,10 @@ func errVarFrom(fl *core.Flow, pred func(*ast.CallExpr) bool) core.ExprPred {
 
 // passChecked records two obligations for "call X happens on every path to an
 // exit, and its error result is tested (non-nil ⇒ the path does not continue)":
-//   <rule>.call  — must-pass-through X;
-//   <rule>.err   — from X, every path to an exit passes the false edge of
-//                  `err != nil` (err defined by X), or X sits in a return.
+//
+//	<rule>.call  — must-pass-through X;
+//	<rule>.err   — from X, every path to an exit passes the false edge of
+//	               `err != nil` (err defined by X), or X sits in a return.
 func (k *gctx) passChecked(rule, anchor, claim string, fl *core.Flow, q core.Query, call func(*ast.CallExpr) bool) bool {
 	if fl == nil {
 		return false
